@@ -185,7 +185,7 @@ def check_case(case):
             lim = 2 * tol
             exc = c_true["vec"] - lim - 1e-8 * c_true["gscale"]
             if (len(exc) and exc.max() > 0) or c_true["icpt"] > lim + 1e-8 * c_true["icpt_scale"]:
-                viol.append(Viol(dict(sig, component="drift-breaks-certificate"),
+                viol.append(Viol(dict(sig, component="drift-breaks-certificate", wild_newton_step=wild_newton_step(case, out)),
                                  f"{name}: stop_crit={out.stop:.3e} <= tol={tol:g}, but from (X, y, w) alone the violation is "
                                  f"{max(c_true['feat'], c_true['icpt']):.3e} > 2 tol (buffer drift {drift:.2e})"))
     else:
